@@ -49,7 +49,11 @@ def run_case(case, ctx):
         present = [bool(case["combo"] >> b & 1) for b in range(4)]
         case = dict(case, n=max(case["n"], 4))
         kinds = {k: (max(1, kinds[k]) if p else 0) for k, p in zip(["bond", "angle", "dihedral", "improper"], present)}
-    a = atomsgen.gen_atoms(rng, case["n"], tag="S", cell=case["cell"], kinds=kinds, max_terms=3, scale=6.0)
+    # one structure in three: several atom types of one element (and, half of those, of one label), told apart by the pair table only
+    sh = case["s"] % 3 == 0 and case["n"] >= 3
+    a = atomsgen.gen_atoms(rng, case["n"], tag="S", cell=case["cell"], kinds=kinds, max_terms=3, scale=6.0, **(dict(shared_elements=True, pair=True, n_types=3) if sh else {}))
+    if len(set(str(x) for x in a.atom_type_labels)) < len(a.atom_type_labels):
+        st.count("structures_with_two_atom_types_of_one_label")
     if case.get("origin"):
         # the textbook primitive cell: an atom exactly at the origin (all coordinates zero) - alone, or with the others elsewhere
         a.positions[0] = 0.0
@@ -166,6 +170,8 @@ def run_case(case, ctx):
 
 def requirements(stats, tier):
     need = []
+    if stats.get("structures_with_two_atom_types_of_one_label") < 20:
+        need.append("structures with two atom types of one label: %d replications" % stats.get("structures_with_two_atom_types_of_one_label"))
     if stats.get("one_atom_cells_with_the_atom_at_the_origin") < 3:
         need.append("one-atom cells with the atom at the origin: %d" % stats.get("one_atom_cells_with_the_atom_at_the_origin"))
     F = 3 if tier == "quick" else 5
